@@ -140,7 +140,7 @@ def scale_program(n):
 
 def scale_cex(ctx, H):
     import re
-    small, big = meta.answer_sets(ctx, [[scale_program(3)], [scale_program(100)]], H, timeout=120)
+    small, big = meta.answer_sets(ctx, [[scale_program(3)], [scale_program(100)]], H, timeout=120, limit=4)      # (the trace is deterministic: one answer set per horizon; at most 4 are asked for)
     if small.get('timeout') or big.get('timeout'):
         return []
     if 'error' in small or 'error' in big:
